@@ -569,6 +569,35 @@ func sortedNames(m map[string]bool) []string {
 // WalkFS renders an implementation's tree below root (through the public interface only)
 // in the same form as ModelTree.Flatten, including listing sanity.
 func WalkFS(fs filesystem.Filespace) (out map[string]string, clause, msg string) {
+	return WalkFSLimit(fs, 64)
+}
+
+// Depth is the number of directory levels of the deepest node.
+func (m *ModelTree) Depth() int {
+	var d func(n *mnode) int
+	d = func(n *mnode) int {
+		max := 0
+		for _, c := range n.kids {
+			if c.dir {
+				if k := 1 + d(c); k > max {
+					max = k
+				}
+			} else if max < 1 {
+				max = 1
+			}
+		}
+		return max
+	}
+	return d(m.root)
+}
+
+// WalkLimit: no single operation makes a tree deeper than twice its depth plus the depth
+// of a destination path; anything deeper than that is not the model's tree.
+func (m *ModelTree) WalkLimit() int { return 2*m.Depth() + 16 }
+
+// WalkFSLimit is WalkFS with an explicit guard against unbounded recursion (a directory
+// that contains itself): callers with long histories derive it from their model.
+func WalkFSLimit(fs filesystem.Filespace, limit int) (out map[string]string, clause, msg string) {
 	out = map[string]string{}
 	var walk func(prefix string, depth int) bool
 	walk = func(prefix string, depth int) bool {
@@ -599,8 +628,8 @@ func WalkFS(fs filesystem.Filespace) (out map[string]string, clause, msg string)
 			}
 			if in.IsDir() {
 				out[child] = "D"
-				if depth > 12 {
-					clause, msg = "walk-error", "tree deeper than 12"
+				if depth > limit {
+					clause, msg = "walk-error", fmt.Sprintf("tree deeper than %d levels (guard derived from the model's tree)", limit)
 					return false
 				}
 				if !walk(child, depth+1) {
